@@ -81,7 +81,9 @@ def gen_ops(g, procs):
                 procs[tag] = {'exit': 0, 'stdout': val}
                 fx = ['set', spec, name, val, tag]
             else:
-                val = ''.join(g.choice(['x', 'y', '-', '${V1}', '${V2}', '${SIMBASE_A}', '${NOPE}', '${V3}', ' ', ':'])
+                # (values may contain backslashes: a referenced value is substituted as it is, character by character)
+                val = ''.join(g.choice(['x', 'y', '-', '${V1}', '${V2}', '${SIMBASE_A}', '${NOPE}', '${V3}', ' ', ':',
+                                        '\\t', 'c:\\new', '\\d', '\\1', '\\g<0>'])
                               for _ in range(g.randint(0, 4)))
                 fx = ['set', spec, name, val, None]
         elif k == 'unset':
